@@ -18,8 +18,11 @@ RULE = (
     "reads, several polyphase blocks, several contigs; polyphase also with a sample heterozygous everywhere whose reads reach only "
     "part of the contig, and with a partially pre-phased input under --use-prephasing) and, for hapcut2vcf / find_snv_candidates, on the "
     "repository's tests/data. Sweeps per input: PYTHONHASHSEED in {0,1,2,3,random,random}, plus polyphase --threads {1,2,3} with "
-    "seeded random delays injected into phase_single_block_mt, haplotag --output-threads {1,2,4}, and one repetition that writes to "
-    "paths at which the outputs of the first run already exist; `learn` (native state in src/caller.cpp) additionally with the heap "
+    "seeded random delays injected into phase_single_block_mt, haplotag --output-threads {1,2,4}, one repetition that writes to "
+    "paths at which the outputs of the first run already exist, and one run that executes the command twice in one interpreter "
+    "(second execution from a used heap); inputs also carry undeclared INFO keys, genotype noise with --distrust-genotypes and all "
+    "three report lists for pedigrees, three-file comparisons with --tsv-multiway, BX read clouds tying between two phase sets, "
+    "split --only-largest-block with tying blocks; `learn` (native state in src/caller.cpp) additionally with the heap "
     "contents varied (MALLOC_PERTURB_ 85/170/255) and once under valgrind memcheck, where a repository frame that uses uninitialised "
     "memory is itself a violation (the result is then a function of heap garbage). Oracle: "
     "all output files of all runs of one input must be identical after dropping the recorded command line (##commandline, @PG CL) "
